@@ -45,11 +45,13 @@ TClass(t, v) ==
         IF v.c # "arr" THEN "amb"
         ELSE LET n == Len(v.items)
                  lenok == IF t.k = "farr" THEN n = t.n ELSE n <= t.cap
-             IN IF ~lenok THEN "range"
-                ELSE IF \A i \in 1..n : TClass(t.e, v.items[i]) = "valid" THEN "valid"
+                 elemsok == \A i \in 1..n : TClass(t.e, v.items[i]) = "valid"
+             IN IF ~lenok THEN (IF elemsok THEN "range" ELSE "reject")   \* two defects: either may be reported first
+                ELSE IF elemsok THEN "valid"
                 ELSE "amb"
 
-Allowed(cls) == IF cls = "valid" THEN {"stored"} ELSE IF cls = "range" THEN {"verr"} ELSE {"stored", "verr", "rej"}
+Allowed(cls) == IF cls = "valid" THEN {"stored"} ELSE IF cls = "range" THEN {"verr"}
+                ELSE IF cls = "reject" THEN {"verr", "rej"} ELSE {"stored", "verr", "rej"}
 
 RECURSIVE VEq(_, _)
 VEq(e, g) ==
